@@ -547,3 +547,9 @@ const _: () = {
         }
     }
 };
+
+#[cfg(ohkami_verif)]
+impl Response {
+    #[doc(hidden)]
+    pub fn __verif_declared_size(&self) -> usize { self.headers.size }
+}
